@@ -318,9 +318,9 @@ def run_worker(cases):
 
 def build_cases(ctx):
     rng = ctx.rng
-    n_struct = ctx.budget(160, 2400)
-    n_raw = ctx.budget(80, 1200)
-    n_err = ctx.budget(12, 60)
+    n_struct = ctx.budget(160, 900)
+    n_raw = ctx.budget(80, 400)
+    n_err = ctx.budget(12, 40)
     cases = []
     for c in ctx.corpus():
         cases.append(dict(c, corpus=True))
